@@ -45,7 +45,8 @@ Definition runq ini next rew ab g pol s0 (cap : nat) st :=
 Definition evalq ini next rew ab g pol (cap n : nat) st :=
   let m := mk_fmdp ini next rew ab g in
   let r := sims m (mk_pol pol) cap n st in
-  (mc_out (mc_evaluate m (mk_pol pol) cap n st),
+  (* mc_evaluate m pi cap n st unfolds to mc_tables (f_gamma m) n (fst (sims m pi cap n st)); r is shared *)
+  (mc_out (mc_tables g n (fst r)),
    map (fun t : traj => (map step_out (fst t), snd t)) (fst r),
    (length st - length (snd r))%nat).
 Definition evaldet ini next rew ab g pol (cap n : nat) st :=
@@ -186,7 +187,7 @@ def gen_mdp_eval(rng, tier, deterministic):
     n_sims = rng.choice([1, 2, 3, 5, 8])
     capn = 30 if cap == "large" else cap
     return {"kind": "mdp_eval", "mdp": m, "policy": gen_policy(rng, m, dyadic, deterministic=deterministic), "cap": cap,
-            "n_sims": n_sims, "dyadic": dyadic, "deterministic": deterministic,
+            "n_sims": n_sims, "dyadic": dyadic, "deterministic": deterministic, "step_guard_total": 45 + n_sims,
             "stream": gen_stream(rng, n_sims * (2 * capn + 1) + 3, dyadic), "gstream": gen_stream(rng, 4, dyadic)}
 
 
